@@ -235,10 +235,8 @@ func c08S3(r *Run, rep *core.Report) {
 			if !isCall || core.Callee(c) != mm.SumSize {
 				return
 			}
-			if addr, isLoad := atomicLoadAddr(c.Call.Args[0]); isLoad {
-				if a := core.Addr(addr); a.Owner == mm.Name && a.Field == mm.TableF {
-					ok = true
-				}
+			if a, isLoad := atomicLoadPath(c.Call.Args[0]); isLoad && a.Owner == mm.Name && a.Field == mm.TableF {
+				ok = true
 			}
 		})
 		rep.Check(ok, "C08.S3", fn(sz), r.P.Pos(sz.Pos()), "returns the counter sum of the currently published table", "Size does not return the counter sum of the atomically loaded current table")
